@@ -262,3 +262,15 @@ PROPS["C13"] = dict(
     trusted_base=BASE + [CRYPTO_STUB, BUF_STUB, FRAMES, PB_CALLERS, PB_OVR],
     assumptions=[A2, PB_CALLERS, PB_OVR, CONN_PRE],
 )
+
+
+PROPS["C09"] = dict(
+    functions=[CONN0 + "get_timer", CONN0 + "_close_begin", CONN0 + "close", CONN0 + "_close_end", CONN0 + "handle_timer@expiry", CONN0 + "datagrams_to_send@end_states", CONN0 + "receive_datagram@arm",
+               "quic/crypto.py::CryptoContext.teardown", "quic/crypto.py::CryptoPair.teardown"],
+    bounded=[],
+    scope="decided for all states and arguments (function contracts and block contracts extracted from the real functions on every run): T1 the prologue of receive_datagram leaves every connection that is not in an end state with a close deadline, whatever happens to the datagram afterwards, and never moves an existing one; get_timer, given a close deadline, returns a finite deadline that is <= the close deadline and <= every pending acknowledgement / loss / pacing deadline, and in an end state returns exactly the close deadline; T3 _close_end (requires a latched close event) appends exactly that one event, moves to TERMINATED and clears the deadline; close() latches the first reason only outside the end states and never emits the event itself; the first statement of handle_timer terminates the connection exactly when now >= the close deadline (creating the idle-timeout event when no close was in progress) and otherwise changes neither events, state nor deadline; the head of datagrams_to_send returns [] without any effect in CLOSING / DRAINING / TERMINATED before a pending close could be flushed; T4 _close_begin arms the closing period at now + 3 probe timeouts and enters CLOSING (initiator) or DRAINING",
+    lemma="C09 'always names a finite next timer deadline' = receive_datagram@arm (and connect, not under contract) establish _close_at, nothing but _close_end clears it, get_timer <= _close_at; 'reports termination exactly once ... within three probe timeouts' = close/_close_begin/handle_timer@expiry/_close_end; 'sends at most its closing packets, delivers nothing after termination' = datagrams_to_send@end_states (+ receive_datagram's END_STATES test inside the prologue block)",
+    not_decided="connect()/_connect, the closing branch of datagrams_to_send (_close_begin call site), _handle_connection_close_frame, _receive_version_negotiation_packet, the re-arming of the idle deadline after a successfully processed packet (position of the assignment inside receive_datagram), the rest of handle_timer (loss-detection timeout), that no other function writes _close_at / _events after termination (frame of the whole class), wall-clock progress and the caller firing the timer",
+    trusted_base=BASE + ["QuicConnection._discard_epoch, _find_network_path, _idle_timeout, QuicPacketRecovery.get_loss_detection_time: frame-only summaries (write nothing relevant to the close state machine), by inspection", "qlog sinks (log_event, end_trace)"],
+    assumptions=["block contracts: the stated entry conditions (a network path exists; a close deadline exists when handle_timer is called; logger plumbing) are assumed at block entry", A1],
+)
